@@ -102,7 +102,7 @@ CHECKS['C12'] = dict(
    category='other',
    technique='Coq proof on a Gallina model of the PLY lexer (all rules, all modes, rule order regenerated from the built lexer) and of LessLexer.token(): gap theorem, layout-independence theorem, last-semicolon theorem + token-stream correspondence with the real lexer + base-vs-variant compilation on the real compiler (generated programs and the example corpus)',
    text='Theorems C12_compile_layout_independent (END TO END on the model pipeline text -> CSS, coq/Model/Pipeline.v: whatever was lexed before, replacing a gap by another gap that also contains / lacks whitespace leaves the compiled CSS unchanged), C12_gap_raw (in every lexer state outside an interpolated string, any gap of blank runs, line-break runs, block comments and line comments lexes to one whitespace token per run; comment text yields no token and consumes exactly itself), C12_gap_filtered (what LessLexer.token() passes on, for every token history), C12_layout_independent (two gaps at the same place that both contain / both lack whitespace give the same token types and values for the whole rest of the input), C12_last_semicolon (written or omitted, the parser receives ; } and the same continuation), C12_rule_order (the model rule order = the order of the lexer PLY builds). Correspondence: (a) raw and filtered token streams (type, value, line) model vs real lexer on generated sheets in wild layouts, token soups and corpus files; (a2) the whole model pipeline (lexer + filter + reference parser + evaluator + formatter) on the wild-layout texts vs the real compiler, byte for byte; (b) each generated program in a base layout vs 3 variants differing only in whitespace-run content, comments (bodies with ; { } quotes //) at statement boundaries and last semicolons must compile to identical bytes under the same options; (c) the same on every corpus file with runs located by the real lexer token positions.',
-   note='PARTIAL (category other): the end-to-end theorem is about the model pipeline, whose parser is a hand-written reference parser for the fragment (coq/Model/Parse.v), not PLY's LALR tables; the tie is the byte-exact text-level correspondence (a2) and (b),(c) on the real compiler. The model abstains (counted in the evidence) on backslash escapes, non-ASCII names and unquoted URL shapes inside parentheses. Trusted: Coq kernel; hand-written matchers for each rule expression (Python re semantics); PLY rule-order contract (checked by C12_rule_order against lexer.lexstatere).',
+   note='PARTIAL (category other): the end-to-end theorem is about the model pipeline, whose parser is a hand-written reference parser for the fragment (coq/Model/Parse.v), not the LALR tables of PLY; the tie is the byte-exact text-level correspondence (a2) and (b),(c) on the real compiler. The model abstains (counted in the evidence) on backslash escapes, non-ASCII names and unquoted URL shapes inside parentheses. Trusted: Coq kernel; hand-written matchers for each rule expression (Python re semantics); PLY rule-order contract (checked by C12_rule_order against lexer.lexstatere).',
    design='3/C12')
 
 CHECKS['C15'] = dict(
